@@ -4,6 +4,7 @@ import RactorModel.Lemmas.HandshakeRefine
 import RactorModel.Lemmas.HandshakeProgress
 import RactorModel.Lemmas.NodeState
 import RactorModel.Lemmas.CheckSession
+import RactorModel.Lemmas.HandshakeDial
 
 /-!
 # C18 — duplicate connections converge on one and the same link
@@ -247,6 +248,44 @@ theorem handshake_comes_to_rest (o : Ordering) (cs : List Conn) (ops : List HOp)
   rw [hsMu_init] at this
   omega
 
+/-- **Late and repeated dials.** Connections are dialled at ANY time of the run (`DOp.dial`) —
+before, between and after the handshakes of the others, also when a link is already up — with
+fresh session ids, any initiator and any nonce; all other steps are those of
+`handshake_converges_on_one_link`. At EVERY moment of every such run, for the winner `acc` of the
+full election over the connections dialled SO FAR (there is one as soon as something was dialled):
+
+* `acc` is open on both nodes (no step taken so far has closed it);
+* if the run is at rest, both nodes hold exactly `[acc]`.
+
+So a link that was elected, ready and at rest IS displaced when a later dial wins the election over
+the larger set (the example below) — and then both nodes move to the same new link. -/
+theorem late_dials_converge (o : Ordering) (ho : o ≠ .eq) (ops : List DOp)
+    (hA : ((dials ops).map (·.idA)).Nodup) (hB : ((dials ops).map (·.idB)).Nodup) :
+    (dRun o ops).1 = dials ops ∧
+    (dials ops ≠ [] → ∃ acc, IsWinner o (dials ops) acc) ∧
+    ∀ acc, IsWinner o (dials ops) acc →
+      (∀ l ∈ (dRun o ops).2, l.c = acc → l.openA = true ∧ l.openB = true) ∧
+      (hsQuiescent (dRun o ops).2 = true →
+        openOnA (dRun o ops).2 = [acc] ∧ openOnB (dRun o ops).2 = [acc]) := by
+  obtain ⟨h1, ops', h2⟩ := dRun_is_hsRun o ops hA hB
+  refine ⟨h1, fun hne => exists_winner o ho _ hne hA hB, ?_⟩
+  intro acc hw
+  have X : Ctx o (dials ops) acc := ⟨ho, hA, hB, hw⟩
+  rw [h2]
+  exact ⟨(hsRun_inv X ops').accOpen, (hsRun_inv X ops').quiescent X⟩
+
+/-- displacement of a ready link: c0 (nonce 9) is dialled, authenticates on both nodes, the run is
+at rest with `[c0]`; then c1 (same direction, nonce 3) is dialled: after its handshake both nodes
+are at rest with `[c1]`. -/
+example :
+    let c0 : Conn := ⟨false, 9, 10, 20⟩
+    let c1 : Conn := ⟨false, 3, 11, 21⟩
+    let ops1 : List DOp := [.dial c0, .hs (.authA 10), .hs (.authB 20)]
+    let ops2 : List DOp := ops1 ++ [.dial c1, .hs (.preA 11), .hs (.authA 11), .hs (.authB 21), .hs (.seeB 20)]
+    hsQuiescent (dRun .gt ops1).2 = true ∧ openOnA (dRun .gt ops1).2 = [c0] ∧ openOnB (dRun .gt ops1).2 = [c0] ∧
+    hsQuiescent (dRun .gt ops2).2 = true ∧ openOnA (dRun .gt ops2).2 = [c1] ∧ openOnB (dRun .gt ops2).2 = [c1] := by
+  decide
+
 /-- (tie of the `authA` step to the `NodeServerState` model that the correspondence run compares
 with `node.rs`) `commit_authenticated` on node A's state — one registered session per connection
 open on A — elects among exactly the step's `activeA (markA w a)` and names as losers exactly the
@@ -434,6 +473,7 @@ end C18
 #print axioms C18.handshake_converges_on_one_link
 #print axioms C18.handshake_winner_is_the_elected_one
 #print axioms C18.handshake_comes_to_rest
+#print axioms C18.late_dials_converge
 #print axioms C18.commit_is_the_auth_step
 #print axioms C18.check_candidate_is_the_pre_step
 #print axioms C18.unauthenticated_cannot_influence_commit
